@@ -686,6 +686,29 @@ func checkCache(h *History, vs []*opView) {
 				continue
 			}
 			arrive := v.o.SentAt + clMax + sigma // latest time the query reached the proxy
+			// the serial the response carries
+			var got0 *serialRec
+			for _, s := range list {
+				if s.serial == meta.Serial {
+					got0 = s
+				}
+			}
+			if got := got0; got != nil {
+				// C19: after a successful positive refresh later hits see the new serial
+				var newest *serialRec
+				for _, s := range list {
+					if s.positive && !s.tc && s.groupKnown && s.group == myGroup && arrivedBy(s) < v.o.SentAt+clMin && (reached(s, 1<<62) || surelyArrived(s)) && (ample || redisKept(s, v.o.SentAt+clMin)) {
+						if newest == nil || s.reply.At > newest.reply.At {
+							newest = s
+						}
+					}
+				}
+				// (stores happen in arrival order; two replies sent within one latency
+				// span of each other may arrive in either order)
+				if newest != nil && got.positive && got.reply.At+upMax+sigma < newest.reply.At+upMin {
+					h.S.Fail("C19", "refresh-not-visible", "%s got serial %d from cache although the refresh that fetched serial %d had completed %v earlier", fmt.Sprintf("op %d (token %s)", op.Idx, op.Token), got.serial, newest.serial, v.o.SentAt-newest.reply.At)
+				}
+			}
 			// is there an entry that must be live for this client at that time?
 			var must *serialRec
 			for _, s := range list {
@@ -730,20 +753,6 @@ func checkCache(h *History, vs []*opView) {
 			}
 			if got.reply.QueryAt > v.o.SentAt+clMin-time.Millisecond && got.reply.At > v.o.SentAt {
 				h.S.Fail("C07", "miss-despite-live-entry", "%s in group %q was answered by a new upstream exchange (serial %d) although serial %d, fetched %v before with lifetime %v for the same group, was still live", fmt.Sprintf("op %d (token %s)", op.Idx, op.Token), myGroup, got.serial, must.serial, v.o.SentAt-must.reply.At, must.lifetime)
-			}
-			// C19: after a successful positive refresh later hits see the new serial
-			var newest *serialRec
-			for _, s := range list {
-				if s.positive && !s.tc && s.groupKnown && s.group == myGroup && arrivedBy(s) < v.o.SentAt+clMin && (reached(s, 1<<62) || surelyArrived(s)) && (ample || redisKept(s, v.o.SentAt+clMin)) {
-					if newest == nil || s.reply.At > newest.reply.At {
-						newest = s
-					}
-				}
-			}
-			// (stores happen in arrival order; two replies sent within one latency
-			// span of each other may arrive in either order)
-			if newest != nil && got.positive && got.reply.At+upMax+sigma < newest.reply.At+upMin && must.positive {
-				h.S.Fail("C19", "refresh-not-visible", "%s got serial %d from cache although the refresh that fetched serial %d had completed %v earlier", fmt.Sprintf("op %d (token %s)", op.Idx, op.Token), got.serial, newest.serial, v.o.SentAt-newest.reply.At)
 			}
 		}
 	}
